@@ -787,6 +787,7 @@ Proof.
   - destruct (mint_issue2_view _ _ _ _ _ _ _ H) as (_ & C & _). auto.
   - destruct (mint_burn_view _ _ _ _ _ H) as (_ & C & _). auto.
   - destruct (debit_same _ _ _ _ _ H) as [R _]. rewrite R. exact Hc.
+  - inversion H; subst; exact Hc.
 Qed.
 
 Lemma step_total_cap_ok : forall cf s o, cap_ok (s_reg s) -> cap_ok (s_reg (step_total cf s o)).
@@ -849,6 +850,7 @@ Proof.
   - apply VP. destruct (mint_issue2_view _ _ _ _ _ _ _ H) as (V & _). exact V.
   - apply VP. destruct (mint_burn_view _ _ _ _ _ H) as (V & _). exact V.
   - destruct (debit_same _ _ _ _ _ H) as [R B]. apply VP, view_pres_same; assumption.
+  - inversion H; subst. apply VP, view_pres_same; reflexivity.
 Qed.
 
 Lemma run_offset : forall cf ops s d, aget d (s_reg s) <> None ->
@@ -1003,6 +1005,7 @@ Proof.
     destruct (Z.eq_dec d native) as [E|E]; [subst d; rewrite zget_zadd_same in Hlt; lia|].
     rewrite zget_zadd_other in Hlt by auto. lia.
   - destruct (debit_same _ _ _ _ _ H) as [_ B]. rewrite B in Hlt. lia.
+  - inversion H; subst. cbn in Hlt. lia.
 Qed.
 
 (* the full statement (only blocks create native tokens) is false: layer2 MintIssueTx accepts the
